@@ -243,6 +243,10 @@ func runHistory(t *rapid.T, concurrent bool) {
 		mc.RemoveFutureTx = rapid.Bool().Draw(t, "removefuture")
 		e.capsBind = true
 		vstat.Label("pool_tiny")
+	case 1: // only the per-block quota of confidential transactions binds: the offer stops inside the executable list
+		mc.UTXOSize = rapid.IntRange(1, 2).Draw(t, "utxosize")
+		e.capsBind = true
+		vstat.Label("pool_utxo_quota_binds")
 	default:
 		vstat.Label("pool_default")
 	}
